@@ -351,6 +351,10 @@ func replayWitnesses(prop, tier string, hByID map[string]Harness, models map[str
 				msg = "end not reached"
 			}
 			fmt.Printf("INCONCLUSIVE harness=%s: reach witness not confirmed by concrete re-execution: %s\n", it.h.ID, msg)
+			if os.Getenv("ZX_DEBUG") != "" {
+				mj, _ := json.Marshal(it.m.Model)
+				fmt.Fprintln(os.Stderr, "witness model:", string(mj))
+			}
 			continue
 		}
 		ok++
